@@ -428,6 +428,11 @@ def _group_func(m):
     from ..core.values import AbsFunc
 
     def g(interp, args, kwargs):
+        if len(args) > 1 and all(isinstance(a, K) for a in args):
+            try:
+                return K(m.group(*[a.v for a in args]))
+            except (IndexError, error):
+                raise AbsRaise(T('exc', 'IndexError', 'no such group'))
         if len(args) == 1 and isinstance(args[0], K):
             try:
                 return K(m.group(args[0].v))
